@@ -49,8 +49,16 @@ func main() {
 	c.Finish()
 }
 
+// repoRoot is where the repository under test lives (always /repo for the registered checks).
+var repoRoot = func() string {
+	if v := os.Getenv("VERIF_REPO"); v != "" {
+		return v
+	}
+	return "/repo"
+}()
+
 // repoFrame matches goroutine stack frames whose source file belongs to the repository.
-var repoFrame = regexp.MustCompile(`\n\t/repo/[^\n]*\.go:\d+`)
+var repoFrame = regexp.MustCompile(`\n\t` + regexp.QuoteMeta(repoRoot) + `/[^\n]*\.go:\d+`)
 
 // progress is bumped by the monitors' own producers, consumers and readers each
 // time they complete an operation; together with the goroutine states it tells a
